@@ -86,6 +86,98 @@ def run(F, req):
     return {"hashseed": os.environ.get("PYTHONHASHSEED"), "runs": runs}
 
 
+def touch(F, fmt, obj, text, how):
+    """use the object between two dumps without changing its content: read attributes, query it, load its own text into ANOTHER
+    object, write a derived file"""
+    import io
+    try:
+        if how == "load_other" and text is not None:
+            if fmt == "treeinfo":
+                F[fmt].loads(text)
+            elif fmt == "discinfo":
+                F[fmt].loads(text)
+            else:
+                other = type(obj)()
+                other.loads(text)
+                other.dumps()
+        elif how == "attrs":
+            str(obj)
+            repr(obj)
+            for name in dir(obj):
+                if not name.startswith("_"):
+                    try:
+                        v = getattr(obj, name)
+                        if not callable(v):
+                            repr(v)
+                    except Exception:  # noqa
+                        pass
+            if fmt == "composeinfo":
+                obj.release_id
+                obj.get_release_id(major_version=True)
+                obj.create_compose_id()
+                for v in obj.get_variants(recursive=True):
+                    v.compose_id
+                    str(v)
+                    len(v)
+            if fmt == "images":
+                import productmd.images as im
+                for v in obj.images:
+                    for a in obj.images[v]:
+                        for i in obj.images[v][a]:
+                            im.identify_image(i)
+                            repr(i)
+            if hasattr(obj, "header"):
+                obj.header.version_tuple
+        elif how == "get_variants":
+            if fmt in ("composeinfo", "treeinfo"):
+                top = obj.variants
+                for arch in (None, "x86_64", "src"):
+                    for types in (None, ["self"], ["variant", "optional", "addon", "layered-product"]):
+                        for rec in (False, True):
+                            top.get_variants(arch=arch, types=types, recursive=rec)
+                for k in list(top.variants):
+                    obj[k]
+                    top.variants[k].get_variants(recursive=True)
+        elif how == "dump_for_tree":
+            if fmt == "extra_files":
+                for v in list(obj.extra_files):
+                    for a in list(obj.extra_files[v]):
+                        obj.dump_for_tree(io.StringIO(), v, a, "")
+                        obj.dump_for_tree(io.StringIO(), v, a, "%s/%s/os" % (v, a))
+    except Exception:  # noqa
+        pass
+
+
+def run_seq(F, req):
+    """ONE object, a sequence of steps; every dump is paired with the dump of a FRESH object of the same content made with the
+    same argument.  steps: {"dump": main_variant | None} | {"touch": how}"""
+    fmt, spec = req["fmt"], req["spec"]
+    out = {"hashseed": os.environ.get("PYTHONHASHSEED"), "steps": [], "err": None}
+    try:
+        obj = build(F, fmt, spec)
+        last = None
+        for st in req["steps"]:
+            if "touch" in st:
+                touch(F, fmt, obj, last, st["touch"])
+                out["steps"].append({"touch": st["touch"]})
+                continue
+            mv = st.get("dump")
+            r = {"dump": mv}
+            try:
+                r["text"] = dump(F, fmt, obj, mv)
+                last = r["text"]
+            except Exception as e:  # noqa
+                r["text"] = "ERR:" + type(e).__name__
+            try:
+                r["fresh"] = dump(F, fmt, build(F, fmt, spec), mv)
+            except Exception as e:  # noqa
+                r["fresh"] = "ERR:" + type(e).__name__
+            out["steps"].append(r)
+    except Exception as e:  # noqa
+        out["err"] = type(e).__name__
+    return out
+
+
 def main():
     checklib.use_repo()
     F = adapters()
@@ -94,7 +186,8 @@ def main():
         if not line:
             continue
         req = json.loads(line)
-        sys.stdout.write(json.dumps(run(F, req), ensure_ascii=True) + "\n")
+        res = run_seq(F, req) if req.get("mode") == "seq" else run(F, req)
+        sys.stdout.write(json.dumps(res, ensure_ascii=True) + "\n")
         sys.stdout.flush()
 
 
